@@ -438,6 +438,19 @@ def g3x(rng):
     return case
 
 
+def g3y(rng):
+    """a tensor flattened twice, the second flatten using a level produced by a static split"""
+    M, N, K, J = rng.choice([("M", "N", "K", "J"), ("I", "P", "H", "R")])
+    decl = {"A": [M, N, K, J], "B": [K, J], "Z": [M, N]}
+    e = dict(out="Z", oidx=[V(M), V(N)], terms=[dict(kind="times", factors=[("t", "A", [V(M), V(N), V(K), V(J)]), ("t", "B", [V(K), V(J)])], sel=None)])
+    parts = {"(%s, %s)" % (M, N): ["flatten()"], K: ["uniform_shape(%d)" % rng.randint(1, 5)], "(%s0, %s)" % (K, J): ["flatten()"]}
+    loop = [M + N, K + "1", K + "0" + J]
+    if rng.random() < 0.5:
+        loop = [K + "1", M + N, K + "0" + J]
+    return dict(decl=decl, eins=[e], mapping={"partitioning": {"Z": parts}, "loop-order": {"Z": loop}},
+                ext={M: rng.randint(1, 3), N: rng.randint(1, 3), K: rng.randint(1, 6), J: rng.randint(1, 3)}, env={}, tags=["g3y"])
+
+
 def g3(rng):
     """product Einsums Z[m,n] = A[k,m] * B[k,n] (and variants) with uniform_occupancy / flatten"""
     variant = rng.choice(["occ", "occ", "occ_under_shape", "occ2", "flatten", "flatten_occ", "occ_out"])
